@@ -152,5 +152,45 @@ let () =
     | id :: "B" :: [n] ->
       let z = z_of_string n in
       Printf.printf "%s %s %s\n" id (zs (Gen_Limits.coq_StreamBudget z)) (zs (Gen_Limits.coq_MaxXRefEntries z))
+    | id :: "A" :: "dct" :: n :: h0 :: v0 :: h1 :: v1 :: h3 :: v3 :: w :: mxx :: [smyy] ->
+      let z = z_of_string in
+      let g = { Charge.g_n = z n; g_h0 = z h0; g_v0 = z v0; g_h1 = z h1; g_v1 = z v1; g_h3 = z h3; g_v3 = z v3; g_width = z w } in
+      Printf.printf "%s %s %s\n" id (zs (Charge.plane_charge g (z mxx) (z smyy))) (zs (Charge.plane_alloc g (z mxx) (z smyy)))
+    | id :: "A" :: "prog" :: [] ->
+      let s = Charge.prog_site (z_of_int 1) (z_of_int 1) (z_of_int 1) (z_of_int 1) in
+      Printf.printf "%s %s %s\n" id (zs s.Charge.s_charge) (zs s.Charge.s_alloc)
+    | id :: "A" :: "pred" :: p :: c :: b :: [w] ->
+      let pp = { Predict.p_pred = z_of_string p; p_colors = z_of_string c; p_bpc = z_of_string b; p_cols = z_of_string w } in
+      let s = Charge.predict_site pp in
+      Printf.printf "%s %s %s\n" id (zs s.Charge.s_charge) (zs s.Charge.s_alloc)
+    | id :: "A" :: "ccitt" :: cols :: [k] ->
+      let s = Charge.ccitt_site (z_of_string cols) (z_of_string k) in
+      Printf.printf "%s %s %s\n" id (zs s.Charge.s_charge) (zs s.Charge.s_alloc)
+    | id :: "A" :: "pool" :: limit :: [ops] ->
+      let ops = Stdlib.List.map z_of_string (split_list ops) in
+      let (p, don) = Charge.pool_run { Charge.p_live = z_of_int 0; p_peak = z_of_int 0; p_avail = z_of_string limit } ops (z_of_int 0) in
+      let taken = if int_of_z p.Charge.p_avail <= 32 then "-1" else zs p.Charge.p_peak in
+      Printf.printf "%s %s %s %s %s\n" id (zs p.Charge.p_live) (zs p.Charge.p_peak) taken (zs don)
+    | id :: "A" :: "lzw" :: [sz] ->
+      let t = int_of_z Charge.lzw_table_bytes and n = int_of_string sz in
+      Printf.printf "%s %s\n" id (string_of_bool (t <= n && n <= t + 512))
+    | id :: "X" :: "main" :: [t] ->
+      let es = Stdlib.List.map (fun e -> match Stdlib.List.map z_of_string (Stdlib.String.split_on_char ',' e) with
+        | [a; b; c] -> ((a, b), c) | _ -> failwith "bad entry") (Stdlib.String.split_on_char ';' t) in
+      Printf.printf "%s %s\n" id (string_of_bool (CCITT.main_table_ok es))
+    | id :: "X" :: "run" :: [t] ->
+      let es = Stdlib.List.map (fun e -> match Stdlib.List.map z_of_string (Stdlib.String.split_on_char ',' e) with
+        | [a; b] -> (a, b) | _ -> failwith "bad entry") (Stdlib.String.split_on_char ';' t) in
+      Printf.printf "%s %s\n" id (string_of_bool (CCITT.run_table_ok es))
+    | id :: "E" :: cols :: [evs] ->
+      let ev s =
+        let args = Stdlib.List.map z_of_string (Stdlib.String.split_on_char ',' (Stdlib.String.sub s 1 (Stdlib.String.length s - 1))) in
+        match s.[0], args with
+        | 'p', [b] -> CCITT.EPass b
+        | 'h', [a; b] -> CCITT.EHoriz (a, b)
+        | 'v', [a; b] -> CCITT.EVert (a, b)
+        | _ -> CCITT.EStop in
+      let evs = Stdlib.List.map ev (Stdlib.String.split_on_char ';' evs) in
+      Printf.printf "%s %s\n" id (zs (CCITT.row_len (z_of_string cols) (CCITT.Row2 (evs, false))))
     | id :: _ -> Printf.printf "%s badcase\n" id
     | [] -> ())
